@@ -53,7 +53,7 @@ class MessageToUserTlv(AbstractTlvBase):
         return MessageToUserTlv.TLV_TYPE
 
     def is_reserved_cfdp_message(self) -> bool:
-        if len(self.tlv.value) >= 5 and self.tlv.value[0:4].decode() == "cfdp":
+        if len(self.tlv.value) >= 5 and bytes(self.tlv.value[0:4]) == b"cfdp":
             return True
         return False
 
